@@ -445,7 +445,8 @@ def run_case(case):
         ti_pts = vals[2].reshape(-1)
         # (a radau end point is also the start of the next step, where z may jump: left out)
         keep = [i_ for i_, t_ in enumerate(tr_all) if np.min(np.abs(ti_pts - t_)) > 1e-9 * (1 + abs(t_))]
-        if keep:
+        # (a point with a negative horizon has a decreasing time axis: looking a time up is meaningless there)
+        if keep and np.all(np.diff(ti_pts) > 0):
             try:
                 outz = samp_z(gist, tr_all[keep])
                 outz = [outz] if not isinstance(outz, (list, tuple)) else outz
